@@ -19,6 +19,9 @@ def main():
     a = ap.parse_args()
     pid = a.pid.upper()
     seed = int(os.environ.get('VERIF_SEED') or 0)
+    if a.tier == 'thorough':
+        # longer z3 budget per query for the nested-fixpoint obligations (read at import by the task processes)
+        os.environ.setdefault('VERIF_Z3_SCALE', '3')
     try:
         mod = importlib.import_module('vlib.props.' + pid.lower())
     except ModuleNotFoundError as e:
